@@ -13,7 +13,7 @@ import RV.C16.Model
   Choices a conformant writer has, all covered: quote character per literal; bare token or quoted
   form for xsd:integer / decimal / double / boolean literals whose lexical form is such a token;
   per character: backspace, form feed and the other quote character raw or as ECHAR (`\b` `\f` `\'` `\"`),
-  any character other than the quote, backslash, tab, LF, CR as UCHAR (`\uXXXX` / `\UXXXXXXXX`, either case).
+  any character at all — quote, backslash, tab, LF, CR included — as UCHAR (`\uXXXX` / `\UXXXXXXXX`, either case).
   Not among the choices (see design.d/C16.md): a leading `+` on a bare number (rdflib's term
   normalisation removes it from every literal), long quotes (`"""…"""`), `$name` in the header.
 
@@ -44,16 +44,18 @@ def uchar (lower : Bool) (c : Char) : Str :=
 /-- the quote character that is not `q` -/
 def otherQuote (q : Char) : Char := if q = '"' then '\'' else '"'
 
-/-- one character of a quoted literal under choice `k`: 0 = raw where the grammar allows it,
-    1 = ECHAR where one exists, 2 / 3 = UCHAR with upper / lower case digits.  The quote itself and the
-    backslash are always ECHARs; tab, LF, CR always `\t` `\n` `\r` as the TSV format demands. -/
+/-- one character of a quoted literal under choice `k`: 2 / 3 = UCHAR with upper / lower case digits
+    (any character, the quote, the backslash and control characters included: in a TSV cell `\u0022`
+    is one character of the lexical form); otherwise the quote itself and the backslash are ECHARs,
+    tab, LF, CR are `\t` `\n` `\r` as the TSV format demands, and for backspace, form feed and the other
+    quote character 0 = raw, 1 = ECHAR. -/
 def escChar (q : Char) (k : Nat) (c : Char) : Str :=
-  if c = q then ['\\', q]
+  if 2 ≤ k then uchar (k == 3) c
+  else if c = q then ['\\', q]
   else if c = '\\' then ['\\', '\\']
   else if c = '\t' then ['\\', 't']
   else if c = '\n' then ['\\', 'n']
   else if c = '\r' then ['\\', 'r']
-  else if 2 ≤ k then uchar (k == 3) c
   else if c = '\x08' then (if k = 0 then [c] else ['\\', 'b'])
   else if c = '\x0c' then (if k = 0 then [c] else ['\\', 'f'])
   else if c = otherQuote q then (if k = 0 then [c] else ['\\', c])
